@@ -447,6 +447,12 @@ def r5(ctx: Ctx) -> None:
                         if guards:
                             ctx.unrec(f, e.node, f"store into {' / '.join(sn)} at the current time", "a fixed slot is written under a condition on the state of the series (e.g. only when storage is allocated for the first time): whether that can hit a recorded slot is not decided", short(guards[0])[:100])
                             continue
+                    if not (d is not None and d == 0) and getattr(e, "cur", None) is not None:
+                        # writing back the value the slot already holds (`s[i] -= 0`, `s[i] = s[i]`) changes no recorded value
+                        v_, c_ = strip_ver(e.value), strip_ver(e.cur)
+                        if v_ == c_ or (v_[0] == "bin" and v_[1] in ("+", "-") and strip_ver(v_[2]) == c_ and strip_ver(v_[3]) in (("const", 0), ("const", 0.0))):
+                            ctx.holds(f, e.node, f"store into {' / '.join(sn)}: the slot keeps its value", "the stored value is the slot's current value", short(v_))
+                            continue
                     ctx.check(d is not None and d == 0, f, e.node, f"store into {' / '.join(sn)} at the current time", f"index == {short(now)}", short(e.index))
                 if e.kind == "store" and e.attr in SERIES:
                     q = f.qualname
